@@ -20,6 +20,17 @@ def plan(ctx):
     from checks.common import corpus
     n = 60 if tier == "quick" else 4000
     seqs = [("mal%d" % i, gen_proc.malformed_history(rng)) for i in range(n)]
+    # application descriptions whose strings sit exactly at, just below and just above the 255-byte host limit, in every field
+    # that is length-limited or copied on the processor goroutine, with several fills (ASCII, multi-byte runes straddling the
+    # limit, continuation bytes)
+    edge = ["proc init timeout=0"]
+    for key in ["dh", "host", "name", "dk", "ver", "rc", "tok"]:
+        for n in [253, 254, 255, 256, 257, 509, 510, 511]:
+            for fill in [b"h" * n, ("\u00e9" * n).encode()[:n], b"a" * (n - 3) + "\u20ac".encode(), b"\x80" * n, b"a" * (n - 1) + b"\xc3"]:
+                if tier == "quick" and rng.random() < 0.5:
+                    continue
+                edge.append("proc apphostile sq=%d %s=%s" % (rng.choice([0, 1000]), key, fill[:n].hex()))
+    seqs.append(("edge-lengths", edge))
     return [("corpus", corpus(ID)), ("gen", seqs)]
 
 
